@@ -8,6 +8,7 @@ import Driver.Player
 import Driver.Seek
 import Driver.Vgm
 import Driver.Conv
+import Driver.Wave
 open Driver
 
 def allHandlers : List Handler :=
@@ -16,6 +17,7 @@ def allHandlers : List Handler :=
   ++ SeekD.handlers
   ++ VgmD.handlers
   ++ ConvD.handlers
+  ++ WaveD.handlers
 
 def answerModel (cmd arg : String) : String :=
   match allHandlers.find? (·.cmd == cmd) with
